@@ -21,7 +21,7 @@ class C01(flow.Spec):
             "is well-formed must show exactly row_spec of that collection (the order-free specification the convergence theorems are "
             "about, evaluated by the extracted Coq function on the real extension's final state). layer 2 (cluster): 2-3 REAL agents, the harness is the network: local transactions "
             "(multi-row, conflicting writes to the same cells from different nodes, deletes), broadcast delivery in order / "
-            "reversed / with omissions / duplicated / cut in two chunks (first half only, or second half first), lossy and "
+            "reversed / with omissions / duplicated / cut in two chunks (first half only, second half only, or second half first), relays that hold only the tail of a version serving a third node, lossy and "
             "loss-free pairwise sync sessions (generate_sync -> compute_available_needs -> the real sync server -> "
             "process_multiple_changes), buffered applies; then loss-free all-pairs rounds. Oracle: all nodes show identical "
             "tables and identical (value, column version, causal length) per cell, no need / partial need is left, heads agree, "
@@ -67,8 +67,8 @@ class C01(flow.Spec):
                     ops.append("T %d %d %s" % (n, k, " ".join(st)))
                 elif x < 0.75:
                     n = rnd.randrange(nn); m = rnd.randrange(nn)
-                    mode = rnd.choice([0, 0, 1, 2, 3, 4, 4, 5])
-                    if mode in (4, 5):
+                    mode = rnd.choice([0, 0, 1, 2, 3, 4, 4, 5, 6])
+                    if mode in (4, 5, 6):
                         tags.add("chunked-broadcast")
                     if mode == 2:
                         tags.add("lossy-broadcast")
@@ -81,6 +81,18 @@ class C01(flow.Spec):
             if len(writers) >= 2:
                 tags.add("concurrent-writers")
             out.append(("cluster %d %d %s 6" % (nn, len(ops), " ".join(ops)), tags))
+        # a relay that holds only the END of a multi-change version (its first broadcast chunk was lost) serves a
+        # third node, which knows nothing of the version yet; later everybody syncs with everybody
+        R = 4 if tier == "quick" else 40
+        for _ in range(R):
+            a, b = rnd.sample([0, 1, 2], 2)
+            c = 3 - a - b
+            k = rnd.choice([2, 3, 4])
+            st = " ".join("I %d %d" % (r, rnd.randrange(1, 9000)) for r in rnd.sample(range(1, 9), k))
+            ops = ["T %d %d %s" % (a, k, st), "B %d %d 6" % (a, b), "S %d %d 0" % (c, b)]
+            if rnd.random() < 0.5:
+                ops.append("S %d %d 0" % (c, b))
+            out.append(("cluster 3 %d %s 6" % (len(ops), " ".join(ops)), {"cluster", "nodes=3", "chunked-broadcast", "relay-holds-tail-only"}))
         # the family the cluster theorem's no_tie hypothesis is about: two nodes delete the same row
         # before they hear of each other's delete, a third node is served each delete by the node
         # where it lost (sync mode 2: only relayed versions arrive)
